@@ -697,6 +697,10 @@ func (s *Store) CreateAccessAndRefreshTokens(ctx context.Context, req op.TokenRe
 	case *op.DeviceAuthorizationState:
 		nr.Client, nr.AuthTime, nr.AMR = r.ClientID, r.AuthTime, r.AMR
 	}
+	if rr, ok := req.(*refreshReq); ok && s.LiveRefresh {
+		// a storage that carries the grant over to the new refresh token as it is (example/server/storage does): the audience slice is shared
+		nr.Audience = rr.Audience
+	}
 	nr.Root = nr.ID
 	if current != "" {
 		old, ok := s.Refresh[current]
